@@ -198,7 +198,7 @@ def subchecks(tier):
     big = tier == "thorough"
     return [
         Sub("lookup", lambda rep, case: body(rep, case, "lookup"), strategy=strat_specs("full" if big else "grid"),
-            n=20_000 if big else 240, shards=16 if big else 8, shrink_budget=60),
+            n=3_000 if big else 240, shards=16 if big else 8, shrink_budget=60),
         Sub("payload-lengths", body_payload, cases=lambda: [{"lo": a, "hi": min(a + 125, 2001)} for a in range(1, 2001, 125)],
             shards=16, exhaustive=True),
     ]
